@@ -28,6 +28,7 @@ Require Import V.Proofs.C08Proofs.
 Require Import V.Model.BroadcastThreads.
 Require Import V.Proofs.BroadcastThreadsProofs.
 Require Import V.Proofs.BroadcastOrder.
+Require Import V.Proofs.C08JudgeProofs.
 Open Scope Z_scope.
 
 (* K1: the layout constants the model uses are the ones the compiler produced *)
@@ -347,6 +348,18 @@ Proof.
   apply (subseq_In _ _ Sub). apply handed_In. exact Hres.
 Qed.
 Print Assumptions C08_seqlock.
+
+(* The oracle evaluated on the implementation's observations (C08Oracle.holds_conc = `judge` on the receiver's results,
+   sent = the messages as (type, hex), start index = the message the receiver joined at) accepts every result list the
+   theorems' judgement accepts, when the messages are pairwise distinct and the only error returned is UnableToKeepUp;
+   fq is the oracle's final-quiet switch (last receive began after the transmitter's last access): its clause is the
+   `drained` conjunct of C08_interleaved.  So on runs covered by the theorems the oracle raises no alarm. *)
+Theorem C08_oracle_conc_accepts : forall all i0 fq ann i lost,
+  NoDup (map showm all) ->
+  jst all i0 ann i lost -> Forall only_lap (map fst ann) -> quiet_ok all fq ann i lost ->
+  judge (map showm all) (Z.of_nat (length (map showm all))) (map show_rres (rev (map fst ann))) (Z.of_nat i0) false fq = true.
+Proof. intros all i0 fq ann i lost ND. exact (oracle_accepts_jst all i0 ND fq ann i lost). Qed.
+Print Assumptions C08_oracle_conc_accepts.
 
 (* the repaired code is never in the class *)
 Theorem C08_repaired_not_in_class : forall cap m hv g sched,
